@@ -155,10 +155,13 @@ PROPS = {
                 "~30 virtual days (gaps drawn around 24h/2d/3d boundaries), statement-level yields inside the Provider methods in 3/4 of "
                 "the runs; non-trivial = at least two distinct keys were seen and at least one Get hit; distinct = distinct event-log hash",
         "required_probes": ["current-generated", "current-reused", "get-hit", "get-expired", "get-unknown", "long-history", "local-zone-with-dst-switch", "key-exchange-after-stall"],
-        "components": {"real": ["net/ntske Provider (Current, Get, generateNext)", "crypto/rand via the process RNG"],
+        "components": {"real": ["net/ntske Provider (Current, Get, generateNext)", "crypto/rand via the process RNG",
+                                "every 64th run: core/server runNTSKEServerTLS / handleKeyExchangeTLS / newNTSKEMsg behind crypto/tls on the simulated stream, with a scripted client that stalls after the handshake",
+                                "every 2048th run: one provider over 66000..69000 renewals (about 185 virtual years)",
+                                "a quarter of the runs: time.Local = Europe/Zurich (time/tzdata embedded), started within 100 h of a DST switch"],
                        "stub": STUBS_COMMON},
         "assumptions": ["time.Now inside the provider is the bubble's virtual clock",
-                        "sync.Mutex in provider.go is replaced by simsync.Mutex (same method set) at build time",
+                        "sync.Mutex / sync.RWMutex in provider.go are replaced by simsync.Mutex / simsync.RWMutex (same method sets) at build time",
                         "interleavings are explored at statement granularity, not inside expressions"],
     },
     "C01": {
@@ -195,9 +198,9 @@ PROPS = {
                 "in 2/3 of the runs the router flips bits in transit (MAC, SPI, algorithm, payload, address header, traffic class, anywhere) in 10..60 % of the packets; "
                 "non-trivial = at least two replies judged at the router; distinct = distinct event-log hash",
         "required_probes": ["ntp-reply-checked", "authenticated-exchange", "client-verified-response", "scmp-reply-checked", "not-forwarded-from-service-port", "forwarded-from-endhost-port", "not-forwarded-to-endhost-port", "measurement-failed", "served-unauthenticated-while-daemon-down", "mixed-address-families", "crafted-ntp-request", "listeners-started-by-the-service", "requests-delivered-to-the-endhost-port", "nts-with-packet-authentication"],
-        "components": {"real": ["core/server runSCIONServer (NTP, SCMP, forwarding branches)", "core/client SCIONClient, MeasureClockOffsetSCION", "net/scion auth.go, Fetcher, DeriveHostHostKey", "scionproto slayers/spao/drkey (library)"],
+        "components": {"real": ["core/server runSCIONServer (NTP, SCMP, forwarding branches); in a third of the authenticated runs started by core/server StartSCIONServer itself (sixteen listeners, their fetchers connected to the mock daemon)", "a quarter of the runs: NTS on top (net/nts, net/ntske provider, runNTSKEServerTLS, the client's fetcher over crypto/tls)", "core/client SCIONClient, MeasureClockOffsetSCION", "net/scion auth.go, Fetcher, DeriveHostHostKey", "scionproto slayers/spao/drkey (library)"],
                        "stub": dict(STUBS_COMMON, **{"SCION daemon": "mock daemon.Connector serving DRKeys derived with the real generic.Deriver", "border routers": "scripted relay that forwards, records and tampers", "kernel UDP": "simnet"}),
-                       "not_run": ["IPv6 hosts, one-hop and EPIC paths (IPv4 and empty/SCION paths only)"]},
+                       "not_run": ["one-hop and EPIC paths (empty and SCION paths only)"]},
         "assumptions": ["while the SCION daemon is unavailable to a listener (an injected fault the statement does not quantify over) a request with an authenticator is served like one without; the check then only demands that the reply carries no server authenticator", "the oracle recomputes the CMAC with its own call of spao.ComputeAuthCMAC over the packet as received and the key it derives itself",
                         "path reversal is checked against the harness's own reversal of the encoded path"],
     },
@@ -287,7 +290,7 @@ PROPS = {
                 "unknown (critical or not) records inserted anywhere, shuffled order, missing end-of-message, records after end-of-message, message written in one or many TLS records, connection cut "
                 "(FIN or reset) after 0..1500 bytes; non-trivial = at least one key exchange connection; distinct = distinct event-log hash",
         "required_probes": ["exchange-succeeded", "exchange-failed", "keys-agree", "real-keys-agree", "destination-checked", "named-destination", "scion-client", "named-host-not-an-address"],
-        "components": {"real": ["net/ntske Fetcher, dialTLS, exchangeDataTLS, ReadData, ExportKeys", "core/server handleKeyExchangeTLS, newNTSKEMsg", "core/client IPClient (NTS request path)",
+        "components": {"real": ["net/ntske Fetcher, dialTLS, exchangeDataTLS, ReadData, ExportKeys", "core/server handleKeyExchangeTLS, newNTSKEMsg", "core/client IPClient (NTS request path); every fourth run core/client SCIONClient and MeasureClockOffsetSCION (requests through the relay router, destination read from the SCION packet)",
                                 "timeservice.go configureIPClientNTS", "crypto/tls (client and server handshakes, exporters)", "net/nts NewRequestPacket/EncodePacket"],
                        "stub": dict(STUBS_COMMON, **{"TCP": "simnet streams (in-order bytes, segmentation, FIN/reset at a byte offset)", "scripted peer": "tls.Server with generated record stream"}),
                        "not_run": ["NTS-KE over QUIC/SCION (quic-go is not simulated); ReadData/ExportKeys/exchangeKeys checks are shared code"]},
